@@ -6,7 +6,7 @@ directory on a bounded family of operation sequences and compares every outcome 
 (model name, pipeline id, node id), kept in a Python dict.
 
 Bound (stated in the evidence): every sequence of 1..3 operations over
-  2 contexts (two pipeline ids under one artifact_dir and model name) x 5 node ids ('n', 'n.x', 'n.json', 'a*', '[n]')
+  2 contexts (two pipeline ids under one artifact_dir and model name) x 6 node ids ('n', 'n.x', 'n.json', 'a*', '[n]', '')
   x save(value, format) with 2 formats and 6 values (a dict, '', 0, None, a value only pickle can store, a string that can be
     serialised but not encoded) | load
 restricted to sequences that touch at most 2 distinct (context, id) keys, plus the failed-save-then-save/load sequences for
@@ -34,7 +34,7 @@ class Ctx:
         self.model_name, self.pipeline_id = 'model', pid
 
 
-IDS = ('n', 'n.x', 'n.json', 'a*', '[n]')
+IDS = ('n', 'n.x', 'n.json', 'a*', '[n]', '')
 ONLY_PICKLE = {1, 2}                       # a set: picklable, not JSON
 NOT_ENCODABLE = 'caf\ud800'               # json.dumps(ensure_ascii=False) accepts it, utf-8 encoding refuses it
 VALUES = ({'k': [1, 2]}, '', 0, None, ONLY_PICKLE, NOT_ENCODABLE)
@@ -181,7 +181,7 @@ async def main_async():
 
 def main():
     n, failures = asyncio.run(main_async())
-    result = dict(harness='bounded/fsstore.py', bound='sequences of <= 3 operations (<= 2 saves) over 2 contexts x 5 node ids x '
+    result = dict(harness='bounded/fsstore.py', bound='sequences of <= 3 operations (<= 2 saves) over 2 contexts x 6 node ids x '
                   '(save of 6 values in 2 formats | load), touching at most 2 keys', cases=n, failures=failures)
     if '--json' in sys.argv:
         with open(sys.argv[sys.argv.index('--json') + 1], 'w') as f:
